@@ -114,6 +114,7 @@ def run_case(case: dict) -> dict:
     nseg = rng.randint(2, 4)
     tiny_updates = 0
     mid_reads = 0
+    scaled_between = [0]
     for i in range(nseg):
         if i > 0:
             upd = {p: round(rng.uniform(0.3, 2.0), 3) for p in rng.sample(sorted(params), rng.randint(1, 2))}
@@ -121,9 +122,24 @@ def run_case(case: dict) -> dict:
                 # a nudge: the segment's values differ from the previous segment's by a relative 1e-6 .. 1e-5 only
                 upd = {p: params[p] * (1.0 + rng.choice([1e-6, -3e-6, 8e-6])) for p in upd}
                 tiny_updates += 1
-            sim.update_parameters(upd)
+            how = core.rng_for(case["seed"] + f":how{i}").choice(["update", "update", "scale_one", "scale_many", "scale_on_model"])
+            if how == "update":
+                sim.update_parameters(upd)
+            else:
+                # the same new values reached by scaling what is there (through the simulator or on its model)
+                fac = {p: upd[p] / params[p] for p in upd}
+                if how == "scale_one":
+                    for p, f in fac.items():
+                        sim.scale_parameter(p, f)
+                elif how == "scale_many":
+                    sim.scale_parameters(dict(fac))
+                else:
+                    for p, f in fac.items():
+                        model.scale_parameter(p, f)
+                upd = {p: params[p] * fac[p] for p in upd}
+                scaled_between[0] += 1
             params = params | upd
-            history.append({"update": upd})
+            history.append({how: upd})
         t += rng.randint(2, 12) / 8.0
         if rng.random() < 0.5:
             n = rng.randint(2, 5)
@@ -269,7 +285,7 @@ def run_case(case: dict) -> dict:
     rng.shuffle(order)
     got: dict[int, list] = {}
     viols: list[dict] = []
-    counters = {"views_read": 0, "segments": nseg, "intermediate_results_taken_and_read_before_the_simulator_went_on": mid_reads, "results_stitched_by_hand_with_a_time_label_in_two_segments": stitched, "parameter_sets_differing_by_1e-6_relative": tiny_updates, "models_with_a_state_dependent_coefficient": int(any(c["name"] == "vd" for c in spec["components"])), "models_with_exactly_zero_coefficients": int(any(c["name"] == "vz" for c in spec["components"]))}
+    counters = {"views_read": 0, "segments": nseg, "intermediate_results_taken_and_read_before_the_simulator_went_on": mid_reads, "results_stitched_by_hand_with_a_time_label_in_two_segments": stitched, "parameter_sets_differing_by_1e-6_relative": tiny_updates, "segments_whose_parameters_were_reached_by_scaling": scaled_between[0], "models_with_a_state_dependent_coefficient": int(any(c["name"] == "vd" for c in spec["components"])), "models_with_exactly_zero_coefficients": int(any(c["name"] == "vz" for c in spec["components"]))}
     for i in order:
         r = reads[i]
         try:
